@@ -6,7 +6,7 @@
    the ends of those encodings — is what every string operation's validity proof rests on. *)
 From Coq Require Import ZArith List Lia Bool Arith ZifyBool.
 Import ListNotations.
-Open Scope Z_scope.
+Local Open Scope Z_scope.
 
 Definition cont (b : Z) : bool := (128 <=? b) && (b <? 192).
 
@@ -395,7 +395,8 @@ Qed.
 Theorem next_boundary l i b :
   valid l = true -> boundaryb l i = true -> nth_error l i = Some b ->
   boundaryb l (i + width b) = true /\
-  exists c, scalar c = true /\ firstn (width b) (skipn i l) = encode c /\ decode1 (skipn i l) = Some (c, skipn (i + width b) l).
+  exists c, scalar c = true /\ length (encode c) = width b /\ firstn (width b) (skipn i l) = encode c /\
+            decode1 (skipn i l) = Some (c, skipn (i + width b) l).
 Proof.
   intros Hv Hb Hn. apply valid_iff in Hv. destruct Hv as (cs & Hs & ->).
   pose proof Hb as Hb0. apply (boundary_iff cs i Hs) in Hb. destruct Hb as [k Hk].
@@ -423,7 +424,7 @@ Proof.
       rewrite Nat.min_l by assumption. replace (S k - k)%nat with 1%nat by lia.
       rewrite firstn_all2 by (rewrite firstn_length; lia). reflexivity. }
     rewrite E1, enc_app, app_length. cbn [enc flat_map]. rewrite app_nil_r. lia.
-  - exists c. split; [exact Hc|]. rewrite Esk2. split.
+  - exists c. split; [exact Hc|]. split; [exact Hw|]. rewrite Esk2. split.
     + rewrite <- Hw. rewrite firstn_app, Nat.sub_diag, firstn_all, firstn_O, app_nil_r. reflexivity.
     + rewrite decode1_encode by exact Hc. f_equal. f_equal.
       rewrite Esplit, app_assoc.
